@@ -12,7 +12,9 @@ MANIFEST = {
     "text": "Theorems C16_* (Coq) on a model of getParentMethodT (visited set, superclass edges followed, an included module and "
             "what it includes answering instance lookups, an extended module and what it includes answering class lookups, "
             "over an abstract method table): the walk terminates on every inheritance map, cyclic ones included, with fuel "
-            "|unvisited|+1, and whatever it answers is a class or module that Ruby's lookup reaches from the receiver's class. "
+            "|unvisited|+1, and whatever it answers is a class or module that Ruby's lookup reaches from the receiver's class; on a well-moded "
+            "map (every node reached in one static mode) an empty answer means that no reachable class or module has the method "
+            "(C16_lookup_complete). "
             "Visibility sections are C22_tags. Tie: the walk is executed through a hook on generated inheritance maps "
             "(cycles, include+extend of one module, configured names) and method tables and compared with the model by "
             "vm_compute; end to end, ti runs on generated hierarchies (superclass chains of depth 1-4, included and extended "
@@ -20,9 +22,9 @@ MANIFEST = {
             "/ protected sections) and every call (instance and class receivers, every generated method name) is compared "
             "with Ruby's lookup: resolved, or reported (undefined, private with explicit receiver, protected from outside, "
             "wrong arity of new).",
-    "note": "Trusted: Coq kernel + vm_compute; lib/suggen.py (Ruby's lookup and visibility rules); completeness of the walk, "
-            "`new` and visibility are exercised end to end only.",
-    "technique": "Coq proof (termination and soundness of the lookup DFS with a shared visited set); correspondence by "
+    "note": "Trusted: Coq kernel + vm_compute; lib/suggen.py (Ruby's lookup and visibility rules); `new` and visibility "
+            "are exercised end to end only.",
+    "technique": "Coq proof (termination, soundness and completeness of the lookup DFS with a shared visited set); correspondence by "
                  "vm_compute through a build-tag hook; end-to-end comparison with Ruby's lookup rules",
 }
 REQUIRES = ["Model/Lookup.v"]
@@ -31,7 +33,7 @@ RULE = ("hook: maps over 8 class names x 4 frames (cycles allowed), 1-4 definiti
         "non-trivial = the callee is inherited or mixed in / the map has an include or extend edge")
 TRUSTED = []
 ASSUMPTIONS = ["`new` of a class without any initialize in its chain takes anything in ti (Ruby: no arguments): not judged", "generated class and module names do not collide with configured class names (collisions: kept finding)"]
-PARTIAL = ["completeness of the walk: exploration only", "a user class whose short name is a configured class (kept finding)"]
+PARTIAL = ["completeness of the walk (C16_lookup_complete) assumes a well-moded inheritance map (every node reached in one static mode)", "a user class whose short name is a configured class (kept finding)"]
 
 
 def part_lookup_corr(ctx, part):
@@ -111,13 +113,7 @@ def render(w):
         else:
             for n in c["static"]:
                 lines += ["  def self.%s" % n, "    1", "  end"]
-        for vis in suggen.VIS:
-            ms = [n for n, v in c["inst"] if v == vis]
-            if ms:
-                if vis != "public":
-                    lines.append("  " + vis)
-                for n in ms:
-                    lines += ["  def %s" % n, "    1", "  end"]
+        lines += suggen.render_instance_methods(c)
         lines.append("end")
     for c in w.classes:
         for n, _ in c["reopen"]:
